@@ -148,41 +148,49 @@ Section Zmethod.
           end
       end.
 
-    (* py: 251: candidate_outliers[np.argsort(candidate_outliers[:,2])][::-1] — ONE of the admissible orders
-       (stable ascending sort, reversed) *)
-    Definition ord_stable (l : list row) : list row := rev (sort_by (fun a b : row => rz a <=?! rz b) l).
-    (* maximal runs of equal keys in a sorted list *)
-    Fixpoint blocks (l : list row) : list (list row) :=
+    (* py: 251: candidate_outliers[np.argsort(candidate_outliers[:,2])][::-1].  A processing order is a list of
+       positions; applied to a list of another length (or if it is not a permutation of the positions) it is the identity,
+       so that `apply_perm pi` is a permutation of every list. *)
+    Definition apply_perm (pi : list nat) (l : list row) : list row :=
+      if nat_list_eqb (sort_nat pi) (seq 0 (length l)) then map (fun i => nth i l row0) pi else l.
+    Definition key_ix (l : list row) (i : nat) : T N := rz (nth i l row0).
+    (* ONE of the admissible orders: stable ascending sort of the positions by key, reversed *)
+    Definition ord_stable_ix (l : list row) : list nat :=
+      rev (sort_by (fun a b : nat => key_ix l a <=?! key_ix l b) (seq 0 (length l))).
+    (* maximal runs of equal keys in a sorted list of positions *)
+    Fixpoint blocks (key : nat -> T N) (l : list nat) : list (list nat) :=
       match l with
       | [] => []
       | a :: l' =>
-          match blocks l' with
-          | (b :: B) :: Bs => if rz a =?! rz b then (a :: b :: B) :: Bs else [a] :: (b :: B) :: Bs
-          | _ => [[a]]
+          match blocks key l' with
+          | (b :: B) :: Bs => if key a =?! key b then (a :: b :: B) :: Bs else [a] :: (b :: B) :: Bs
+          | Bs => [a] :: Bs
           end
       end.
     (* every order that sorts the keys: permute inside the blocks of ties; None if there are more than `cap` *)
-    Definition tie_orders (l : list row) : option (list (list row)) :=
-      let bs := blocks l in
+    Definition tie_orders (l : list row) : option (list (list nat)) :=
+      let bs := blocks (key_ix l) (ord_stable_ix l) in
       let cnt := fold_left (fun c B => Nat.min 65 (c * fact_cap (length B))) bs 1 in
       if cap <? cnt then None
       else Some (fold_right (fun B acc => flat_map (fun p => map (app p) acc) (perms B)) [[]] bs).
+    Definition ord_stable (j : nat) (l : list row) : list row := apply_perm (ord_stable_ix l) l.
 
     (* the results reachable under all orders of tied candidates; None = more than `cap` of them *)
-    Fixpoint explore (fuel j : nat) (thr : T N) (pts : list row) (outs : list pt) : option (list (zres (list row * list pt))) :=
+    Fixpoint explore (fuel j : nat) (thr : T N) (pts : list row) (outs : list pt)
+      : option (list (zres (list row * list pt))) :=
       match fuel with
       | O => Some [RFuel]
       | S f =>
           match round_cands w thr pts with
           | None => Some [RErr]
           | Some cos =>
-              match tie_orders (ord_stable cos) with
+              match tie_orders cos with
               | None => None
-              | Some ols =>
-                  collect (fun ol => match step thr j pts outs ol with
+              | Some pis =>
+                  collect (fun pi => match step thr j pts outs (apply_perm pi cos) with
                                      | inl r => Some [r]
                                      | inr (pts', outs') => explore f (S j) (thr -! dz) pts' outs'
-                                     end) ols []
+                                     end) pis []
               end
           end
       end.
